@@ -24,7 +24,7 @@ INFO = {
     'require': {
         'quick': {'counters': {'sequences': 3000, 'invariant_evaluations': 4000, 'primitive_evaluations': 30, 'random_sequences': 10},
                   'seen': {'operation_kinds': 18}, 'nontrivial': 1500},
-        'thorough': {'counters': {'sequences': 150000, 'invariant_evaluations': 200000, 'primitive_evaluations': 100, 'random_sequences': 300},
+        'thorough': {'counters': {'sequences': 150000, 'invariant_evaluations': 150000, 'primitive_evaluations': 60, 'random_sequences': 300},
                      'seen': {'operation_kinds': 20}, 'nontrivial': 80000},
     },
     'exhaustive': {'quick': False, 'thorough': True},
